@@ -10,7 +10,8 @@ EXPLANATION = ("Encoders: every `From<X> for RawControl` / `From<X> for Exop` is
                "Decoders: PagedResults, SyncState, SyncDone, parse_syncinfo, ReadEntryResp, PasswordModifyResp, WhoAmIResp, StartTxnResp - "
                "which child ordinal / tag feeds which field, required class/tag checks, the EntryState and SyncInfo choice tables and the "
                "RFC 4533 defaults (refreshDone TRUE, refreshDeletes FALSE). Integer fields of response values (PagedResults size, the SyncState ENUMERATED): the decoder is interpreted with the component's content octets fixed to literal strings of every length 0..12 (distinct, high-bit, all-ones, zero-padded) and the field must be the big-endian value modulo the cast to the field's type - whichever function reads the octets (parse_uint, a local helper, a loop in place). Y.opaque-octets-total: a component its RFC defines as opaque octets (transaction identifier, generated password, cookies, UUIDs) is decoded by a total function - a decoder that applies a UTF-8 test has a returning path for the test failing. Y.optional-absent: for every OPTIONAL / DEFAULT component of a response value's RFC shape the decoder has a returning path on which the cursor read at that position was not taken to have yielded an element (a read whose None flows into expect / unwrap leaves no such path). Envelope (Z13/Z14 encoder, Z.* decoder; the same rule functions as C02 S13/S14 and C03 T3): for every member of the partition control list Some / None x criticality true / false x value Some / None a control list is encoded as [0]{SEQ{OCTET type, BOOLEAN TRUE only-if critical, OCTET value only-if present}*} and the list decoder, interpreted exactly on every literal list of 0..3 controls over the ways the two optional components can be written (C03 T3), returns one entry per element in the order of the elements (a control list survives the envelope unchanged: same controls, same order), each with its own element's type, criticality = content octet != 0 (absent: false) and value (absent: None). "
-               "Not decided: byte-level equality of arbitrary cookies; lber's serialisation (C07).")
+               "Z15 the control list of an entry / referral reaches the caller (C10's Q2). Z16 a value of any content length is framed exactly: the one length writer under every encoder emits the minimal definite form for every length (C07's B2m threshold partition). "
+               "Not decided: byte-level equality of arbitrary cookies; the rest of lber's serialisation (C07).")
 TRUSTED = ['lber serialisation of a shape (C07)', 'RFC tables transcribed in this module']
 UNDECIDED = ['byte-level equality of arbitrary field contents', 'EndTxnResp (not in the property\'s list of response values)']
 ASSUMPTIONS = []
@@ -18,7 +19,16 @@ SHARED = [('C03', ('T1.dispatch',), 'Y0.response-name-and-value'),
           # "a control list survives the message envelope unchanged": for the messages of a Search that are not its result - entries and
           # continuation references - the decoded control list travels next to the protocolOp through the item channel; what the stream
           # hands out must be (tag, that list) for both kinds, whoever builds the value
-          ('C10', ('Q2.entry-from-received-item', 'Q2.coverage'), 'Z15.item-controls-reach-the-caller')]      # the name and value every extended-response parser starts from are lifted out of the ExtendedResponse by the LDAPResult decoder: [10] and [11], present = Some, whatever they contain
+          ('C10', ('Q2.entry-from-received-item', 'Q2.coverage'), 'Z15.item-controls-reach-the-caller'),
+          # "for all field values ... sizes, cookies of any length and content" / "the emitted ... BER value [is the one] the defining RFC
+          # prescribes" / "a control list survives the message envelope unchanged": X and Z13 / Z14 decide the *shape* of every value and
+          # of the control list for all field values; that a component of any content length - a 250-octet paging cookie inside a
+          # 256-octet SEQUENCE, a 256-octet control value or password - is then framed so that the peer finds its end where it is rests
+          # on the one length writer every encoder and the envelope go through: `write_length(n)` emits the definite form of n, with
+          # exactly as many length octets as n needs, for every n (C07's threshold-partition argument B2m.*).  (seed C19l: the octet
+          # count loop as `while len > 256`: a content of exactly 256 octets goes out as `81 00`)
+          ('C07', ('B2m.',), 'Z16.value-of-any-length-is-framed-exactly')]
+# Y0: the name and value every extended-response parser starts from are lifted out of the ExtendedResponse by the LDAPResult decoder: [10] and [11], present = Some, whatever they contain
 
 def inline_policy(c):
     """Default impls and every function of the control / exop modules themselves (private helpers, integer conversions of their
